@@ -68,6 +68,10 @@ PROPS = {
                 text="Histories of up to 6 steps (connect, 7-day jumps, hour jumps, ticket-file deletion, restart = new factory on the same simulated disk) of the real ScrambleSuit client against a reference server: reply padding 0..1308 incl. extremes, the reply split at every byte position from the end of the key to its last byte (mark and MAC favoured), control packets and first data coalesced behind the reply, all chunkings, wrong secret, single-bit tampering of every reply field and of data packets, ticket issue; oracle: Dial completes for every split, streams exact and complete after 10 quiet virtual minutes, tampering surfaces as an error with no altered data, every ticket seen by the server at most once, wrong secret / tampered reply fail within 60 s.",
                 note="The ScrambleSuit reference server (sim/ref/obfsref/ss.go) follows the published protocol from memory; it is the least independent reference. Tickets live on the simulated disk (os -> simos).",
                 technique=TECH + "history generation with response-split enumeration, tampering faults and a ticket-use model on a virtual clock and disk"),
+    "C16": dict(engine="wire", quick=40, thorough=600, level="exploration", design="DESIGN.md section 4, C16",
+                text="The real meek_lite client (real net/http transport over the simulated network, runtime select order from the seeded seam) against a reference HTTP/1.1 server that records bodies, session ids and overlap and answers 200 with tape-sized slices (empty, small, partial, full 64 KiB) of a position-coded downstream stream; application writes of 1 byte .. 3 x 65536 with pauses up to 7 s (so the 100 ms .. 5 s poll back-off runs), Close at a tape-chosen instant; oracle: request bodies in order are exactly the written stream (complete after 20 quiet virtual minutes if not closed), Read delivers exactly the response bodies, bodies <= 65536, one session id, never two requests in flight, after Close Write fails, Read fails after a bounded drain, at most one more request and none in the following hour.",
+                note="net/http's internal goroutines are not named tasks; they meet the simulation only through simnet operations. Fault-free server only (non-200 / dropped connections are exercised in C10).",
+                technique=TECH + "reference HTTP server with conservation oracle under seeded scheduling, select order and virtual-time polling"),
     "C17": dict(engine="wire", quick=30, thorough=600, level="exploration", design="DESIGN.md section 4, C17",
                 text="A step-by-step reference SOCKS5 client (IPv4 / IPv6 incl. v4-mapped / domains of 1..255 arbitrary bytes, any port, argument maps with escaped ';' '=' '\\', 8-bit bytes, repeated keys, every username/password spill point) under all segmentations with pauses inside the 5 s budget, plus 19 malformed variants (bad versions, nmethods 0, no acceptable method, bad auth version, ulen/plen 0, bad escapes, empty key, key without value, trailing ';', unknown atyp, zero-length domain, BIND/UDP, non-zero RSV, pipelined trailing bytes, truncation, silence > 5 s); oracle: exact Target/Args for conforming exchanges, error plus (nothing | the stage's RFC failure reply) for malformed ones, deadline enforced and disarmed.",
                 note="Trusted: simulator, the strict pt-spec argument encoder in the harness. IPv6 targets are compared as addresses (net.IP.Equal), domain targets byte for byte.",
